@@ -850,8 +850,15 @@ class Surface:
             r, t = cart_to_polar(x, y, vec_to_grid=False)
             c, k, dx, dy = params['c'], params['k'], params['dx'], params['dy']
             z = off_axis_conic_sag(c, k, r, t, dx=dx, dy=dy)
-            dr, dt = off_axis_conic_der(c, k, r, t, dx=dx, dy=dy)
-            ddx, ddy = surface_normal_from_cylindrical_derivatives(dr, dt, r, t)
+            # Cartesian slopes of the parent conic at the shifted point,
+            # d/dx = c (x+dx) / phi, d/dy = c (y+dy) / phi.  The polar route
+            # (off_axis_conic_der -> surface_normal_from_cylindrical_derivatives)
+            # is 0/0 at the center of the off-axis section, r=0
+            X = x + dx
+            Y = y + dy
+            phi = np.sqrt(1 - (1 + k) * c * c * (X * X + Y * Y))
+            ddx = c * X / phi
+            ddy = c * Y / phi
             return z, ddx, ddy
 
         return cls(typ=typ, P=P, n=n, FFp=FFp, R=R, params=params, bounding=bounding)
